@@ -338,7 +338,8 @@ class JsonStub:
 _detect_encoding = []
 
 
-def _json_loads_sym(s):
+def _json_loads_sym(s, kw=None):
+    kw = kw or {}
     ctx = Ctx.cur
     from .codecs_model import _pinned
     if s.kind is bytes:
@@ -351,23 +352,25 @@ def _json_loads_sym(s):
         ctx.flag('approx:json-surrogatepass')
         s = lift(s).decode(enc)
         if not isinstance(s, SSeq):
-            return _json.loads(s)
+            return _json.loads(s, **kw)
     try:
         vals = _pinned(s)           # content fully determined by the path condition: real json
     except Unmodelled:
         vals = None
     if vals is not None:
-        return _json.loads(''.join(map(chr, vals)) if s.kind is str else bytes(vals))
+        return _json.loads(''.join(map(chr, vals)) if s.kind is str else bytes(vals), **kw)
     # not determined: CPython's pure-Python decoder under the same instrumentation (sx/jsonmodel.py)
     if JsonStub.exact:
         from . import jsonmodel
         try:
-            return jsonmodel.loads(s)
+            return jsonmodel.loads(s, **kw)
         except Unmodelled as e:
             ctx.flag('json-model-declined:%s' % str(e)[:40])
     # fallback: exact on a small catalogue of JSON texts of this length
     # (an object, an array, a number -- padded with blanks), everything else is
     # *assumed* invalid.  Paths are flagged; only exception-type claims are made.
+    if kw:
+        raise Unmodelled('json.loads with keyword arguments on undetermined text')
     ctx.flag('stubbed:json.loads')
     L = len(s.el)
     mk = (lambda t: t) if s.kind is str else (lambda t: t.encode('ascii'))
@@ -542,7 +545,9 @@ def _sp_sum(f, a, k):
 
 def _sp_json_loads(f, a, k):
     if a and isinstance(a[0], SSeq):
-        return _json_loads_sym(a[0])
+        if len(a) > 1:
+            raise Unmodelled('json.loads with positional extras')
+        return _json_loads_sym(a[0], k)
     return f(*a, **k)
 
 
